@@ -463,8 +463,13 @@ class C09(object):
             # the task goes dormant; entries are compared by what failed, not by item payload
             def ekey(e):
                 return canon([e.get("message"), e.get("task_id"), e.get("task_transition_id")])
-            errp = set(ekey(e) for e in wp.snap["errors"])
-            erru = set(ekey(e) for e in wu.snap["errors"])
+            def relevant(w, e):
+                # per-item "Execution failed" entries of a with-items task depend on which items got
+                # to run before the task went dormant (see above): not part of the comparison
+                t = (w.p["tasks"].get(e.get("task_id")) or {})
+                return not (t.get("with") and (e.get("message") or "").startswith("Execution failed"))
+            errp = set(ekey(e) for e in wp.snap["errors"] if relevant(wp, e))
+            erru = set(ekey(e) for e in wu.snap["errors"] if relevant(wu, e))
             if errp != erru:
                 return Violation("C09", "same_outcome", "errors differ: with pause %r, without %r"
                                  % (sorted(errp - erru)[:2], sorted(erru - errp)[:2]))
